@@ -103,7 +103,7 @@ def main():
         ],
         "checks": checks,
         "not_applicable": na,
-        "notes": "All checks run the real library rebuilt from /repo's working tree (cmake+ninja variants under /verif/build). Known findings and repaired defects: known_findings.txt. VERIF_SEED is accepted and ignored: nothing is random.",
+        "notes": "All checks run the real library rebuilt from /repo's working tree (cmake+ninja variants under /verif/build). Known findings and repaired defects: known_findings.txt. VERIF_SEED is accepted and ignored: nothing that decides a property is random.  The free-running ThreadSanitizer twins (harness names ending in -tsan) are the one sampled pass: they check the proviso of the controlled scheduler (no unsynchronised access between schedule points, no hidden shared state between callers that share nothing), print ASSUMPTION-BROKEN lines, mark the run as not exhaustive and never produce a verdict.",
     }
     json.dump(m, open(os.path.join(ROOT, "MANIFEST.json"), "w"), indent=1)
     print("claimed:", " ".join(c["property_id"] for c in checks))
